@@ -221,3 +221,44 @@ pub fn params_read_custom_k(k: u32) -> bool {
     println!("ParamsKZG::read_custom(k={k}, Processed) on 4 bytes -> {:?}", r);
     r.is_err()
 }
+
+/// Oracle concretisation for the G1 decoding harnesses (C03/C16): the solver's counterexample is an
+/// ORACLE PATH (uncompress ok, on curve, NOT in the subgroup, yet accepted). A concrete witness of
+/// that path is searched natively: small x-coordinates whose unchecked decompression succeeds and
+/// whose point is not torsion free (almost every curve point: the cofactor is ~2^125). The real
+/// decoder `which` is then run on those bytes; true = it ACCEPTS a point outside the subgroup.
+pub fn g1_decoder_accepts_outside_subgroup(which: &str) -> bool {
+    use group::GroupEncoding;
+    use midnight_curves::{G1Affine, G1Projective};
+    use midnight_proofs::transcript::Hashable;
+    for x in 1u32..200 {
+        for sign in [0u8, 0x20] {
+            let mut bytes = [0u8; 48];
+            bytes[44..48].copy_from_slice(&x.to_be_bytes());
+            bytes[0] |= 0x80 | sign;
+            let mut repr = <G1Affine as GroupEncoding>::Repr::default();
+            repr.as_mut().copy_from_slice(&bytes);
+            let p: Option<G1Affine> = Option::from(G1Affine::from_bytes_unchecked(&repr));
+            let Some(p) = p else { continue };
+            if bool::from(p.is_torsion_free()) {
+                continue;
+            }
+            let accepted = match which {
+                "hashable" => {
+                    let mut rd: &[u8] = &bytes[..];
+                    <G1Projective as Hashable<blake2b_simd::State>>::read(&mut rd).is_ok()
+                }
+                "serde-processed" => {
+                    use midnight_proofs::utils::{helpers::ProcessedSerdeObject, SerdeFormat};
+                    let mut rd: &[u8] = &bytes[..];
+                    <G1Projective as ProcessedSerdeObject>::read(&mut rd, SerdeFormat::Processed).is_ok()
+                }
+                _ => false,
+            };
+            println!("witness x={x} sign={sign:#x}: on curve, outside the subgroup; real decoder `{which}` accepted={accepted}");
+            return accepted;
+        }
+    }
+    println!("no witness found");
+    false
+}
